@@ -706,6 +706,25 @@ func (c *Ctx) checkNoSharedState(rule6, rel string, fns []*ssa.Function) {
 				bad++
 				c.viol(rule6, p.FnName(fn)+" writes a package-level variable", p.instrPos(in), "the codec mutates package-level state while encoding/decoding")
 			}
+			// a method call on a package-level object (a shared bytes.Buffer, encoder, map wrapper)
+			if ci, ok := in.(ssa.CallInstruction); ok {
+				args := callArgs(ci)
+				if len(args) > 0 && ci.Common().Signature().Recv() != nil {
+					var g *ssa.Global
+					switch x := args[0].(type) {
+					case *ssa.Global:
+						g = x
+					case *ssa.UnOp:
+						if gg, okg := x.X.(*ssa.Global); okg && x.Op == token.MUL {
+							g = gg
+						}
+					}
+					if g != nil && isPkgGlobal(g) && !immutableShared(g.Type()) {
+						bad++
+						c.viol(rule6, p.FnName(fn)+" calls a method on the package-level variable "+g.Name(), p.instrPos(in), "a package-level object is used while encoding/decoding: concurrent calls share its state (buffer contents, encoder position)")
+					}
+				}
+			}
 			// append/copy into memory of a package-level variable writes it as well
 			if ci, ok := in.(*ssa.Call); ok && (calleeName(ci) == "builtin.append" || calleeName(ci) == "builtin.copy") && isGlobal(ci.Call.Args[0]) {
 				bad++
@@ -716,4 +735,24 @@ func (c *Ctx) checkNoSharedState(rule6, rel string, fns []*ssa.Function) {
 	if bad == 0 {
 		c.ok(rule6, "no function of "+rel+" returns or writes package-level memory", "-", fmt.Sprintf("%d functions", len(fns)))
 	}
+}
+
+// immutableShared: package-level objects whose methods are safe for concurrent
+// use and do not change them (compiled regular expressions, base64/base32
+// alphabets, sync primitives, error values).
+func immutableShared(t types.Type) bool {
+	for i := 0; i < 3; i++ {
+		if pt, ok := t.(*types.Pointer); ok {
+			t = pt.Elem()
+		}
+	}
+	s := typeString(t)
+	switch s {
+	case "regexp.Regexp", "encoding/base64.Encoding", "encoding/base32.Encoding", "sync.Mutex", "sync.RWMutex", "sync.Once", "error":
+		return true
+	}
+	if _, isIface := t.Underlying().(*types.Interface); isIface && s == "error" {
+		return true
+	}
+	return false
 }
